@@ -2,3 +2,6 @@
 pub mod canon;
 pub mod wire_ref;
 pub mod dnswire;
+pub mod auth_ref;
+pub mod frontdoor_ref;
+pub mod wire_lite;
